@@ -51,6 +51,10 @@ parser { loop { case { "a" -> { big += [65]; t256 += [66]; t257 += [67]; } "b" -
 parser { t += /./; if t[0] > 127 { m = 1; } elif t[0] == 65 { m = 2; } m = [m + t[0]]; h(); "!"; }"""),
     ("feat-word", ["-O2"], """out str[8] t; out int m = 0;
 parser { t += /[0-9A-Za-z_]+/; " "; /[0-9A-Fa-f]+/; m = 1; ";"; /[\\-0-9.]+/; "!"; }"""),
+    ("feat-yield-last", ["-fyield-support"], """yieldcode A, LAST; hook h;
+parser { loop { case { "ab" -> { yield A; } "c" -> { h(); } ";" -> { break; } } } "end"; yield LAST; }"""),
+    ("feat-regex-end", ["-feof-support"], """out int m = 0; hook h;
+parser { "a"; h(); m = 1; /[bc]/; }"""),
     ("feat-signed", [], """out int{signed, size 1} a = -1; out int{signed, size 2} b = 0; out int{size 8} c = 0; out int{unsigned, size 4} d = 0;
 parser { foreach { /./ ; } do { a = [a - 100]; b = [b + a * 2]; d = [d - 1]; c = [c * 3 + d]; } }"""),
 ]
